@@ -49,8 +49,19 @@ def exportResult (floatNames : List String) (r : Result.Result) : Msg :=
       | some e => KV.massOf noxKey e,
     detail := r.detail.getD [] }
 
-/-- Time stamps attached to the per-component series. -/
+/-- Start of every interval: `0, dt₀, dt₀ + dt₁, …`. -/
+def starts : Rat → List Rat → List Rat
+  | _, [] => []
+  | acc, x :: xs => acc :: starts (acc + x) xs
+
+/-- Time stamps attached to the per-component series: the instant from which sample `k` is held (after D45). -/
 def timeBase (n : Nat) : Integrate.TimeBase → List Rat
+  | .series dts => starts 0 dts
+  | .scalar dt => (List.range n).map fun (k : Nat) => (k : Rat) * dt
+
+/-- As found (D45) the per-interval base carried the *end* of every interval (the running sums), one sample
+late with respect to the constant-step base and to the epochs of an input series. -/
+def timeBaseLegacy (n : Nat) : Integrate.TimeBase → List Rat
   | .series dts => Integrate.cumsum 0 dts
   | .scalar dt => (List.range n).map fun (k : Nat) => (k : Rat) * dt
 
